@@ -253,6 +253,7 @@ func Guards(sink ssa.Instruction) []Guard {
 type Cmp struct {
 	Op   token.Token // EQL NEQ LSS LEQ GTR GEQ, or ILLEGAL for a plain boolean value
 	X, Y ssa.Value   // for ILLEGAL: X is the boolean value
+	Via  *ssa.Call   // the equality helper call the comparison was normalised from (bytes.Equal …), if any
 }
 
 // CondCmp decodes the condition of a guard into a comparison that holds on the
@@ -275,7 +276,32 @@ func (g Guard) Cmp() Cmp {
 			if neg {
 				op = negate(op)
 			}
+			// subtle.ConstantTimeCompare(a, b) == 1 / != 1 / == 0
+			for _, side := range [][2]ssa.Value{{b.X, b.Y}, {b.Y, b.X}} {
+				if c, ok := side[0].(*ssa.Call); ok && CalleeID(c.Common()) == "crypto/subtle.ConstantTimeCompare" {
+					if k, isK := ConstInt(side[1]); isK && (op == token.EQL || op == token.NEQ) {
+						eq := (op == token.EQL) == (k == 1)
+						o := token.EQL
+						if !eq {
+							o = token.NEQ
+						}
+						return Cmp{Op: o, X: c.Common().Args[0], Y: c.Common().Args[1], Via: c}
+					}
+				}
+			}
 			return Cmp{Op: op, X: b.X, Y: b.Y}
+		}
+	}
+	// equality helpers on byte slices: bytes.Equal(a, b), hmac.Equal(a, b),
+	// subtle.ConstantTimeCompare(a, b) == 1 are normalised to a == b
+	if c, ok := v.(*ssa.Call); ok {
+		switch CalleeID(c.Common()) {
+		case "bytes.Equal", "crypto/hmac.Equal":
+			op := token.EQL
+			if neg {
+				op = token.NEQ
+			}
+			return Cmp{Op: op, X: c.Common().Args[0], Y: c.Common().Args[1], Via: c}
 		}
 	}
 	// boolean value: express as v == true / v == false
@@ -320,7 +346,7 @@ func (c Cmp) Swap() Cmp {
 	case token.GEQ:
 		op = token.LEQ
 	}
-	return Cmp{Op: op, X: c.Y, Y: c.X}
+	return Cmp{Op: op, X: c.Y, Y: c.X, Via: c.Via}
 }
 
 func (c Cmp) String() string {
@@ -651,6 +677,14 @@ func Leaves(v ssa.Value) []ssa.Value {
 // CallOf returns the call producing v (directly or through Extract), or nil.
 func CallOf(v ssa.Value) *ssa.Call {
 	v = Unwrap(v)
+	// x[:] of a local array initialised once from a call result
+	if sl, ok := v.(*ssa.Slice); ok && sl.Low == nil && sl.High == nil {
+		if a, ok := sl.X.(*ssa.Alloc); ok {
+			if init := allocInit(a); init != nil {
+				v = Unwrap(init)
+			}
+		}
+	}
 	if e, ok := v.(*ssa.Extract); ok {
 		v = e.Tuple
 	}
@@ -1112,4 +1146,18 @@ func FieldPathStores(root ssa.Value, path []string) []ssa.Value {
 		}
 	}
 	return out
+}
+
+// DescribeVal is Describe with a trailing full-slice "[:]" removed, so that
+// k[:] and k name the same thing in comparisons normalised from bytes.Equal.
+func DescribeVal(v ssa.Value) string {
+	d := Describe(v)
+	if sl, ok := Unwrap(v).(*ssa.Slice); ok && sl.Low == nil && sl.High == nil {
+		if a, ok := sl.X.(*ssa.Alloc); ok {
+			if init := allocInit(a); init != nil {
+				return Describe(init)
+			}
+		}
+	}
+	return strings.TrimSuffix(d, "[:]")
 }
